@@ -2,7 +2,7 @@
    `unrolled (c_g C) F` (graph equality), so every theorem about the closed form is a theorem about the model. *)
 From stdpp Require Import strings gmap sets fin_sets pretty.
 From CG Require Import Proofs.UnrollSteps Proofs.ComposeProofs.
-From CG Require Import Base.Compose Base.Oracle Model.Compose6 Model.AcyclicUnroll Proofs.AcyclicUnrollProofs Proofs.LintProofs.
+From CG Require Import Base.Compose Base.Oracle Model.Compose6 Model.AcyclicUnroll Proofs.AcyclicUnrollProofs Proofs.LintProofs Proofs.UnrollLint.
 Open Scope string_scope.
 
 (* ---------- sets ---------- *)
@@ -441,4 +441,38 @@ Proof.
   split; [done|]. split; [by apply unrolled_acyclic; [|apply Hnm|..]|].
   split; [apply unrolled_outputs, Hnm|]. split; [by apply unrolled_inputs'|].
   intros v w Hv Hw Hin Haux. by eapply (unrolled_stable (c_g C) F).
+Qed.
+
+(* ---------- G. the result is lint-clean ---------- *)
+Lemma has_dot_cn i : has_dot (cn i) = false.
+Proof. unfold cn. rewrite has_dot_app, has_dot_pretty_N. done. Qed.
+
+Theorem unrolled_lint_clean C F nm :
+  lint_clean C → c_bbs C = ∅ → startpoints (c_g C) = inputs (c_g C) → (∀ f, f ∈ F → f ∈ dom (c_g C)) →
+  NoDup (unrolled_nodes (c_g C) F).*1 →
+  lint_clean {| c_name := nm; c_g := unrolled (c_g C) F; c_bbs := ∅ |}.
+Proof.
+  intros Hl Hb Hsp HF Hnd.
+  assert (gen_ok : tables_ok gen_tables = true) by (vm_compute; reflexivity).
+  set (c := c_g C) in *.
+  assert (Hnode : ∀ m info, c !! m = Some info → has_dot m = false ∧ wf_node info).
+  { intros m info Hm. apply (lint_clean_node C m info Hl Hb Hm). intros Hbo.
+    assert (m ∈ startpoints c) as Hs. { apply elem_of_of_type. exists info. split; [done|]. cbv beta. rewrite Hbo. reflexivity. }
+    rewrite Hsp in Hs. apply elem_of_inputs in Hs as (i & Hi & Hty). fold c in Hi. rewrite Hm in Hi. injection Hi as <-. congruence. }
+  assert (Hdotd : ∀ m, m ∈ dom c → has_dot m = false).
+  { intros m [info Hm]%elem_of_dom. by apply (Hnode m info). }
+  apply (lint_ok_iff gen_tables gen_ok). intros [(x & j & Hx & V)|(inst & d & Hd & _)]; [|simpl in Hd; by rewrite lookup_empty in Hd].
+  simpl in Hx. apply (unrolled_lookup c F Hnd) in Hx. revert V. apply wf_node_ok.
+  - apply in_unrolled_inv in Hx as [(n & Hn & -> & ->)|[(i & m & info & _ & Hm & -> & ->)|[(f & Hf & -> & ->)|[(i & f & _ & Hf & -> & ->)|(o & Ho & _ & -> & ->)]]]].
+    + apply Hdotd. apply elem_of_inputs in Hn as (i & Hi & _). apply elem_of_dom. eauto.
+    + rewrite has_dot_pre, has_dot_cn. simpl. by apply (Hnode m info).
+    + rewrite has_dot_pre, has_dot_cn. unfold aux. rewrite has_dot_app. simpl. by apply Hdotd, HF.
+    + rewrite has_dot_pre, has_dot_cn. unfold aux. rewrite has_dot_app. simpl. by apply Hdotd, HF.
+    + apply Hdotd. apply elem_of_outputs in Ho as (i & Hi & _). apply elem_of_dom. eauto.
+  - apply in_unrolled_inv in Hx as [(n & Hn & -> & ->)|[(i & m & info & _ & Hm & -> & ->)|[(f & Hf & -> & ->)|[(i & f & _ & Hf & -> & ->)|(o & Ho & _ & -> & ->)]]]].
+    + apply wf_node_input.
+    + unfold copy_info. case_bool_decide; [apply wf_node_buf1|]. apply wf_node_map. by apply (Hnode m info).
+    + apply wf_node_input.
+    + apply wf_node_buf1.
+    + apply wf_node_buf1.
 Qed.
